@@ -14,15 +14,15 @@ import (
 // Variant: a seeded (must be reported) or silent (must not be reported) edit of
 // the current sources, applied in memory through the loader's overlay.
 type Variant struct {
-	ID     string `json:"id"`
-	File   string `json:"file"` // repo-relative
-	Old    string `json:"old"`
-	New    string `json:"new"`
+	ID   string `json:"id"`
+	File string `json:"file"` // repo-relative
+	Old  string `json:"old"`
+	New  string `json:"new"`
 	// further edits in the same or other files
 	More   []VariantEdit `json:"more,omitempty"`
-	Expect string `json:"expect"` // "report" | "silent"
-	Rule   string `json:"rule"`   // rule expected to report (prefix match), for expect=report
-	Note   string `json:"note"`
+	Expect string        `json:"expect"` // "report" | "silent"
+	Rule   string        `json:"rule"`   // rule expected to report (prefix match), for expect=report
+	Note   string        `json:"note"`
 }
 
 type VariantEdit struct {
